@@ -1765,6 +1765,17 @@ impl Element for XmlElement {
 impl ElementMut for XmlElement {
     fn set_attribute(&self, name: &str, value: &str) -> error::Result<()> {
         let attr = self.owner_document().unwrap().create_attribute(name)?;
+
+        // an attribute with that name is already present: its value is changed
+        let prefix = attr.attribute.borrow().prefix().map(|v| v.to_string());
+        let present = self
+            .element
+            .borrow()
+            .attribute_qname(prefix.as_deref(), attr.name().as_str());
+        if let Some(present) = present {
+            return XmlAttr::from(present).set_value(value);
+        }
+
         attr.set_value(value)?;
         self.set_attribute_node(attr)?;
         Ok(())
